@@ -83,6 +83,40 @@ def data_kind_by_type(ctors):
 # ---------------------------------------------------------------------------
 # loaders
 
+_EFF = {}
+
+
+def _path_extent(prog, fname, param):
+    """extent of the reads through `param` when the offsets are constants on every path although not in the IR (a
+    fixed-count loop): the function is unrolled by the path executor; None if it does not unroll into complete paths
+    with constant offsets"""
+    import paths as P
+    from effects import Effects
+    if id(prog) not in _EFF:
+        _EFF[id(prog)] = Effects(prog)
+    eff = _EFF[id(prog)]
+    f = prog.fn(fname)
+    if any(c.callee in prog.funcs for c in f.calls() if c.callee):
+        return None
+    runs = []
+    for lb in (16, 17):
+        ps = P.Executor(prog, eff, loop_bound=lb).run(fname)
+        ext = 0
+        for pa in ps:
+            for e in pa.events:
+                if e.kind == "load":
+                    b, o = P.const_index_key(e.args[0])
+                    if b == ("arg", param):
+                        bits = P.type_bits(e.ins.type) or 8
+                        ext = max(ext, o + max(1, bits // 8))
+                    elif isinstance(b, tuple) and P.derives(b, ("arg", param)) and b[0] == "idx":
+                        return None
+        runs.append((len(ps), ext))
+    if runs[0] != runs[1] or runs[0][0] == 0:
+        return None
+    return runs[0][1]
+
+
 def read_extent(prog, fname, param=0, _depth=0):
     """number of bytes a function may read through pointer parameter `param`
     (max constant offset dereferenced + access size), following callees.
@@ -103,7 +137,10 @@ def read_extent(prog, fname, param=0, _depth=0):
                 size = max(1, (int(ty[1:]) if ty.startswith("i") and ty[1:].isdigit() else 64) // 8)
                 ext = max(ext, off + size)
             elif root[0] == "inst" and _derived_from_arg(f, ptr, param):
-                raise AnalysisBroken("%s reads its pointer parameter at a non-constant offset (%s)" % (fname, i.loc()))
+                pe = _path_extent(prog, fname, param)
+                if pe is None:
+                    raise AnalysisBroken("%s reads its pointer parameter at a non-constant offset (%s)" % (fname, i.loc()))
+                return max(ext, pe)
         elif i.op == "call" and i.callee and not i.callee.startswith("llvm."):
             for k, a in enumerate(i.operands):
                 root, steps = apath(a)
@@ -183,7 +220,8 @@ def dispatch(prog, eff):
     res_i = 0 if f.params[0].get("sret") else None
     if res_i is None:
         raise AnalysisBroken("cbor_stream_decode: result is not returned through an sret slot")
-    X = P.Executor(prog, eff, inline={"claim_bytes"})
+    import ownership as _O
+    X = P.Executor(prog, eff, inline={"claim_bytes"} | _O.static_callees(prog, eff, "cbor_stream_decode"))
     ps = X.run("cbor_stream_decode")
     fields = callback_fields(prog)
     # field offsets of struct cbor_decoder_result
@@ -364,7 +402,10 @@ def encoder_paths(prog, eff, fname):
         raise AnalysisBroken("%s: no buffer/buffer_size parameters" % fname)
     bi, si = names.index("buffer"), names.index("buffer_size")
     vi = 0 if bi != 0 else None
-    X = P.Executor(prog, eff, inline=ENC_INLINE)
+    # everything the encoder delegates to inside the library is followed (whatever the helpers are called)
+    inl = set(ENC_INLINE) | {c for c in eff.transitive_callees(fname)
+                             if c in prog.funcs and not prog.funcs[c].is_extra and c not in eff.transitive_callees(c)}
+    X = P.Executor(prog, eff, inline=inl)
     out = []
     for pa in X.run(fname):
         st = pa.st
@@ -395,7 +436,7 @@ def encoder_paths(prog, eff, fname):
 def loader_bytemap(prog, eff, fname):
     """{byte offset j: left shift} of an integer loader, from its return term"""
     import paths as P
-    X = P.Executor(prog, eff)
+    X = P.Executor(prog, eff, loop_bound=16)     # a fixed-count assembly loop unrolls into one path
     ps = X.run(fname)
     if len(ps) != 1:
         raise AnalysisBroken("loader %s is not straight-line" % fname)
@@ -418,6 +459,12 @@ def loader_bytemap(prog, eff, fname):
         if isinstance(t, tuple) and t[0] == "op" and t[1] == "shl" and t[4][0] == "c":
             walk(t[3], shift + t[4][1])
             return
+        if t == ("c", 0):
+            return        # the accumulator's initial value
+        if isinstance(t, tuple) and t[0] == "ld" and t[1] != ("arg", 0):
+            b_, o_ = P.const_index_key(P.mkptr(t[1], t[2]) if t[2] else t[1])
+            if b_ == ("arg", 0):
+                t = ("ld", b_, o_, t[3])
         if isinstance(t, tuple) and t[0] == "ld" and t[1] == ("arg", 0):
             if t[2] in m:
                 raise AnalysisBroken("loader %s uses byte %d twice" % (fname, t[2]))
